@@ -69,12 +69,33 @@ class Obligation(object):
         Returns list of (name, smt2 text), smallest first, full VC last."""
         syms = [symbols_of(a) for a in self.assumptions]
         out = []
+        # EUF abstraction of the whole VC (fast, immune to string-solver
+        # noise; needs the string steps as lemma instances)
+        try:
+            from .abstraction import abstract_all
+            out.append(('euf', smt.to_smt2(abstract_all(
+                self.assumptions + [z3.Not(self.goal)]))))
+        except ValueError:
+            pass
         hint = HINTS.get(strip_path(self.label_key()))
         if hint:
             fps = self.fingerprints()
             sel = [i for i, f in enumerate(fps) if f in hint]
             if sel and len(sel) < len(self.assumptions):
                 out.append(('hint', smt.to_smt2(
+                    [self.assumptions[i] for i in sel]
+                    + [z3.Not(self.goal)])))
+        mh = MANUAL_HINTS.get(self.label_key())
+        if mh:
+            sel = []
+            for i, a_ in enumerate(self.assumptions):
+                txt = str(a_)
+                if any(x in txt for x in mh.get('exclude', ())):
+                    continue
+                if any(x in txt for x in mh.get('include', ())):
+                    sel.append(i)
+            if sel and len(sel) < len(self.assumptions):
+                out.append(('manual', smt.to_smt2(
                     [self.assumptions[i] for i in sel]
                     + [z3.Not(self.goal)])))
         seen_sizes = set()
@@ -225,6 +246,7 @@ import hashlib as _hashlib
 import re as _re
 
 HINTS = {}      # 'function#label' -> set of assumption fingerprints
+MANUAL_HINTS = {}   # 'function#label' -> {'include': [...], 'exclude': [...]}
 _fp_cache = {}
 
 
@@ -251,6 +273,21 @@ def load_hints(path):
         with open(path) as f:
             for k, v in json.load(f).items():
                 HINTS.setdefault(k, set()).update(v)
+
+
+def _has_var(t):
+    stack = [t]
+    seen = set()
+    while stack:
+        x = stack.pop()
+        if x.get_id() in seen:
+            continue
+        seen.add(x.get_id())
+        if z3.is_var(x):
+            return True
+        if z3.is_app(x):
+            stack.extend(x.children())
+    return False
 
 
 class Frame(object):
@@ -355,7 +392,7 @@ class Ctx(object):
             return True
         if z3.is_false(cond):
             return False
-        base = self.pc + self.instantiate_schemas([])
+        base = self.pc + self.instantiate_schemas([], light=True)
         key = (tuple(a.get_id() for a in base), cond.get_id(), 'decide')
         r = _feas_cache.get(key)
         if r is None:
@@ -436,14 +473,12 @@ class Ctx(object):
         self.obligations.append(ob)
         return ob
 
-    def index_terms(self, exprs, limit=10):
-        """Index arguments of list-element terms At_*(l, t) occurring in
-        the given formulas (instantiation candidates)."""
-        out = []
-        seen = set()
+    def at_pairs(self, exprs):
+        """(list term id -> index terms) for every At_*(l, t) in exprs."""
+        pairs = {}
         stack = list(exprs)
         visited = set()
-        while stack and len(out) < limit:
+        while stack:
             x = stack.pop()
             if x.get_id() in visited:
                 continue
@@ -451,27 +486,83 @@ class Ctx(object):
             if z3.is_app(x):
                 if x.decl().name().startswith('At_') and x.num_args() == 2:
                     t = x.arg(1)
-                    if t.get_id() not in seen and not z3.is_var(t):
-                        seen.add(t.get_id())
-                        out.append(t)
+                    if not z3.is_var(t) and not _has_var(t):
+                        d = pairs.setdefault(x.arg(0).get_id(), {})
+                        d[t.get_id()] = t
+                stack.extend(x.children())
+            elif z3.is_quantifier(x):
+                stack.append(x.body())
+        return pairs
+
+    def schema_lists(self, var, body):
+        """ids of the list terms indexed by the schema variable."""
+        out = set()
+        stack = [body]
+        visited = set()
+        while stack:
+            x = stack.pop()
+            if x.get_id() in visited:
+                continue
+            visited.add(x.get_id())
+            if z3.is_app(x):
+                if x.decl().name().startswith('At_') and x.num_args() == 2:
+                    out.add(x.arg(0).get_id())
                 stack.extend(x.children())
         return out
 
-    def instantiate_schemas(self, skolems, goal=None):
+    def instantiate_schemas(self, skolems, goal=None, light=False):
+        """Quantifier instantiation by matching: a schema about list l is
+        instantiated at t when At(l, t) occurs in the goal or the path
+        condition, at the goal's own skolem constants, and at the schema's
+        default terms."""
         out = []
-        int_terms = [t for t in skolems if t.sort() == z3.IntSort()]
-        if goal is not None and self.schemas:
-            int_terms += self.index_terms([goal] + self.pc[-12:])
-        for var, body, defaults in self.schemas:
-            terms = list(int_terms) + list(defaults) + list(self.inst_terms)
-            seen = set()
-            for t in terms:
-                t = simp(t) if not z3.is_const(t) else t
-                if t.get_id() in seen:
-                    continue
-                seen.add(t.get_id())
-                out.append(z3.substitute(body, (var, t)))
-        # second round: schemas may mention each other's terms (kept small)
+        sk_terms = [t for t in skolems if t.sort() == z3.IntSort()]
+        pairs = {}
+        if light:
+            # path-sensitive simplification: default instances only (cached)
+            key = (len(self.schemas), tuple(t.get_id() for t in sk_terms))
+            cached = getattr(self, '_light_cache', None)
+            if cached and cached[0] == key:
+                return cached[1]
+            for var, body, defaults in self.schemas:
+                for t in list(sk_terms) + list(defaults):
+                    out.append(z3.substitute(body, (var, t)))
+            self._light_cache = (key, out)
+            return out
+        if self.schemas:
+            pairs = self.at_pairs(([goal] if goal is not None else [])
+                                  + self.pc)
+        seen_global = set()
+        # two rounds: instances may introduce new At-terms
+        for _round in range(2):
+            new_exprs = []
+            for var, body, defaults in self.schemas:
+                lists_ = self.schema_lists(var, body)
+                terms = list(sk_terms) + list(defaults)
+                for lid in lists_:
+                    terms += list(pairs.get(lid, {}).values())
+                if not lists_:
+                    terms += list(self.inst_terms)
+                for t in terms:
+                    key = (body.get_id(), t.get_id())
+                    if key in seen_global:
+                        continue
+                    seen_global.add(key)
+                    inst = z3.substitute(body, (var, t))
+                    out.append(inst)
+                    new_exprs.append(inst)
+            if not new_exprs:
+                break
+            more = self.at_pairs(new_exprs)
+            grew = False
+            for lid, d in more.items():
+                tgt = pairs.setdefault(lid, {})
+                for tid, t in d.items():
+                    if tid not in tgt and len(tgt) < 8:
+                        tgt[tid] = t
+                        grew = True
+            if not grew:
+                break
         return out
 
     @property
